@@ -708,3 +708,80 @@ def cuda_cprop_config(block, sims_arg):
 def targets_cuda():
     return [Target('wave_sim', 'WaveSimCuda.c_prop', [cuda_cprop_config((32, 16), 'none'), cuda_cprop_config((32, 16), 'k'), cuda_cprop_config((3, 5), 'k')], instantiate='fallback',
                    note='launch grid per level covers the level; with the launcher (every thread once) and the thread contract (its pair once iff in range) every (op, lane) pair is evaluated exactly once')]
+
+
+# --------------------------------------------------------------------------- WaveSimCuda.s_to_c / c_to_s / s_ppo_to_ppi: launch geometry (C06)
+class GridKernel(Model):
+    """a kernel launched once over the (lanes, ports) plane: the launch is recorded in ex.g['launch']"""
+
+    def __init__(self, name):
+        self.name = name
+
+    def m_getitem(self, ex, st, idx, node):
+        if not (isinstance(idx, tuple) and len(idx) == 2 and all(isinstance(t, tuple) and len(t) == 2 for t in idx)):
+            raise NotInSubset('kernel launch configuration')
+        (gx, gy), (bx, by) = idx
+
+        def launch(ex_, st_, args, kwargs, node_):
+            ex_.g.setdefault('launch', []).append(dict(kernel=self.name, gx=to_int(gx), gy=to_int(gy), bx=to_int(bx), by=to_int(by), args=list(args)))
+            return None
+        return Method_(launch)
+
+
+def cuda_io_config(method, kernel, arg_names, block):
+    """method launches `kernel` once; its grid must cover every (lane < sims, port < s_len) pair; the device arrays of self are passed in the documented order"""
+    def setup(ex):
+        st = State()
+        sims, s_len = ex.fv('sims', 'int'), ex.fv('s_len', 'int')
+        st.assume(SBool(z3.And(sims.e >= 0, s_len.e >= 0)))
+        fields = {nm: Opaque(nm) for nm in ('c', 's', 'c_locs', 'c_caps')}
+        n_io = ex.fv('n_io', 'int')
+        st.assume(SBool(z3.And(n_io.e >= 0, n_io.e <= s_len.e)))
+        selfo = SObj.new(st, 'self', sims=sims, s_len=s_len, _block_dim=block, ppi_offset=ex.fv('ppi_offset', 'int'), ppo_offset=ex.fv('ppo_offset', 'int'),
+                         circuit=SObj.new(st, 'circuit', io_nodes=LenOnly_(n_io)), **fields)
+        st.env.update(self=selfo, time=Opaque('time'), sd=ex.fv('sd_zero', 'int'), seed=Opaque('seed'), math=ex.globs['math'])
+        st.env[kernel] = GridKernel(kernel)
+        ex.g = dict(sims=sims.e, s_len=s_len.e, n_io=n_io.e)
+        return st
+
+    def post(ex, st):
+        g = ex.g
+        ls = g.get('launch', [])
+        yield f'{kernel} is launched exactly once', len(ls) == 1
+        if len(ls) != 1:
+            return
+        L = ls[0]
+        yield 'the grid covers every lane and every port: grid_x * block_x >= sims, grid_y * block_y >= s_len', \
+            SBool(z3.And(L['gx'] >= 0, L['gy'] >= 0, L['gx'] * L['bx'] >= g['sims'], L['gy'] * L['by'] >= g['s_len']))
+        ok = len(L['args']) >= len(arg_names)
+        for a, nm in zip(L['args'], arg_names):
+            if nm in ('c', 's', 'c_locs', 'c_caps'):
+                ok = ok and isinstance(a, Opaque) and a.name == nm
+            elif nm == 'ppi_offset' or nm == 'ppo_offset':
+                ok = ok and a is st.heap[('self', nm)]
+            elif nm == 'time':
+                ok = ok and isinstance(a, Opaque) and a.name == 'time'
+            elif nm == 'n_io':
+                ok = ok and not isinstance(a, Opaque)
+        yield 'the kernel gets the arrays and offsets of self in the documented order', ok
+        if 'n_io' in arg_names:
+            yield 'the number of primary ports passed to the kernel is len(circuit.io_nodes)', SBool(to_int(L['args'][arg_names.index('n_io')]) == g['n_io'])
+    return Config(f'{method}: any sims / s_len, block {block}', {'post': post}, setup, None)
+
+
+class LenOnly_(Model):
+    def __init__(self, n):
+        self.n = n
+
+    def m_len(self, ex, st, node):
+        return self.n
+
+
+def targets_cuda_io():
+    out = []
+    for method, kernel, names in (('s_to_c', 'wave_assign_gpu', ('c', 's', 'c_locs', 'ppi_offset')),
+                                  ('c_to_s', 'wave_capture_gpu', ('c', 's', 'c_locs', 'c_caps', 'ppo_offset', 'time')),
+                                  ('s_ppo_to_ppi', 'ppo_to_ppi_gpu', ('s', 'c_locs', 'time', 'ppi_offset', 'ppo_offset', 'n_io'))):
+        out.append(Target('wave_sim', f'WaveSimCuda.{method}', [cuda_io_config(method, kernel, names, b) for b in ((32, 16), (3, 5))], instantiate='fallback',
+                          note='launch geometry and argument passing; the kernel itself is under its own one-thread contract (wave_kernels_c) and the launcher under launcher_c'))
+    return out
